@@ -318,6 +318,17 @@ def check_one(arg):
     elif [strip(t, 3) for t in got] != [strip(t, 3) for t in exp]:
         fails.append(("table_modules_differ", "modules used per table differ: %r vs %r"
                       % ([strip(t, 3) for t in got], [strip(t, 3) for t in exp]), rep))
+    if seed % 2 == 0:
+        # the same program with a comment line in front of every line, comments KEPT: the same tables
+        srcc = "".join("! note %d\n%s\n" % (k, l) for k, l in enumerate(src.split("\n")[:-1]))
+        fp.SYMBOL_TABLES.clear()
+        oc = fp.parse(srcc, std=std, clear=False, ignore_comments=False)
+        gotc = real_tables() if oc.kind == "tree" else None
+        fp.SYMBOL_TABLES.clear()
+        if gotc is None or [strip(t, 3) for t in gotc] != [strip(t, 3) for t in exp]:
+            fails.append(("tables_differ_with_comments_kept", "a comment line in front of every line, comments kept: %s; tables %r, "
+                          "scope tree %r" % (oc.kind, [strip(t, 1) for t in gotc or []][:3], [strip(t, 1) for t in exp][:3]),
+                          dict(rep, source=srcc, comments_kept=True)))
     intr = set()
     for n in fp.utils.walk(o.tree, fp.F3.Intrinsic_Function_Reference):
         intr.add(str(n).lower().replace(" ", ""))
